@@ -42,6 +42,9 @@ def build(rng, tmp, secure_method):
     from cincoconfig import Schema, StringField, IntField, ListField, DictField, BytesField, SecureField, BoolField, Field
     s = Schema(dynamic=True)
     s.name = StringField(default="n%d" % rng.randint(0, 99))
+    # text whose line structure matters: blank and whitespace-only lines, other line separators, leading / trailing newlines
+    s.motd = StringField(transform_strip=False, default=rng.choice(["Welcome!\n\nBe nice.", "a\n \nb", "\n\nlead", "trail\n\n", "a\x85b", "one\ntwo", "x // y", "plain"]))
+    s.db.notes = ListField(StringField(transform_strip=False), default=lambda: ["l1\n\nl2", " pad "])
     s.port = IntField(default=rng.randint(1, 65535))
     s.flag = BoolField(default=rng.random() < 0.5)
     s.tags = ListField(StringField(), default=lambda: ["a", "b"])
@@ -62,8 +65,12 @@ def build(rng, tmp, secure_method):
     cfg.mode = "debug"
     cfg.site.port = rng.randint(6000, 6999)
     kp = os.path.join(tmp, "key-%d" % rng.randint(0, 10 ** 9))
+    key = bytearray(rng.getrandbits(8) for _ in range(32))
+    if rng.random() < 0.3:
+        # any 32 bytes are a key: also ones that begin or end with what text tools call whitespace
+        key[rng.choice([0, -1])] = rng.choice(b" \t\n\r\x0b\x0c")
     with open(kp, "wb") as f:
-        f.write(bytes(rng.getrandbits(8) for _ in range(32)))
+        f.write(bytes(key))
     cfg._key_filename = kp
     return s, cfg, kp
 
@@ -101,12 +108,17 @@ def run(ctx):
                 captured.append(b)
                 return b
             Config.dumps = spy
+            case = {"stream": "save-ok", "fmt": fmt, "method": method}
             try:
                 with OpenLog() as ol:
                     cfg.save(dest, fmt)
+            except Exception as e:  # noqa
+                res.case(None, kind="ok:raised")
+                res.violate("C19:plain-save-raised", "saving a valid configuration with a usable key file raised %s" % type(e).__name__,
+                            dict(case, error=str(e)[:200]))
+                continue
             finally:
                 Config.dumps = real_dumps
-            case = {"stream": "save-ok", "fmt": fmt, "method": method}
             res.case(("ok", fmt, it), sample=case, kind="ok:" + fmt)
             data = open(dest, "rb").read()
             if len(captured) != 1 or data != captured[0]:
